@@ -100,12 +100,25 @@ def response_case(ctx, S, rng):
     red = gens.phases(rng, k, pattern=("huge" if rng.random() < 0.15 else None))[0]
     near = lambda: float(rng.choice([1, -1])) * (1.0 - 10.0 ** float(rng.uniform(-7, -2)))   # close to, not at, an end point
     avals = [float(rng.uniform(-1, 1)), float(rng.choice([1.0, -1.0, 0.0, 0.3])), near()]
+    # the sample points arrive in a fresh array per call, or in ONE array the caller keeps and refills in place between calls
+    own_buffer = rng.random() < 0.5
+    ctx.count("samples:" + ("caller-buffer-refilled-in-place" if own_buffer else "fresh-array-per-call"))
     with core.quiet():
         p = S.SymmetricQSPProtocol(reduced_phases=red, parity=parity)
-        U = p.gen_unitary(np.array(avals))
-        re = p.gen_response_re(np.array(avals))
-        im = p.gen_response_im(np.array(avals))
-        im_neg = p.gen_response_im(-np.array(avals))
+        if own_buffer:
+            buf = np.array([0.123, -0.456, 0.789][:len(avals)])
+            pre = p.gen_response_im(buf)                      # an earlier request through the same buffer
+            buf[:] = avals
+            U = p.gen_unitary(buf)
+            re = p.gen_response_re(buf)
+            im = p.gen_response_im(buf)
+            buf *= -1.0
+            im_neg = p.gen_response_im(buf)
+        else:
+            U = p.gen_unitary(np.array(avals))
+            re = p.gen_response_re(np.array(avals))
+            im = p.gen_response_im(np.array(avals))
+            im_neg = p.gen_response_im(-np.array(avals))
     full = [float(x) for x in p.full_phases]
     n = len(full) - 1
     ctx.count("response:parity=%d" % parity)
@@ -138,6 +151,15 @@ def history_response_case(ctx, S, rng):
         p = S.SymmetricQSPProtocol(reduced_phases=obj, parity=parity)
     steps = int(rng.integers(2, 7))
     trace = [("init:" + form, red)]
+    sample_form = str(rng.choice(["fresh-array", "caller-buffer", "caller-buffer", "list"]))
+    ctx.count("history-samples:" + sample_form)
+    buf = np.zeros(1)
+
+    def smp(a_):
+        if sample_form == "caller-buffer":
+            buf[0] = a_                                           # the caller's own array, refilled in place
+            return buf
+        return [a_] if sample_form == "list" else np.array([a_])
     for step in range(steps):
         obs = str(rng.choice(["re", "im", "unitary", "jac", "none"]))
         a = float(rng.choice([float(rng.uniform(-1, 1)), 1.0, -1.0, 0.0, 1.0 - 10.0 ** float(rng.uniform(-7, -2)), -1.0 + 10.0 ** float(rng.uniform(-7, -2))]))
@@ -147,11 +169,11 @@ def history_response_case(ctx, S, rng):
         if obs in ("re", "im", "unitary"):
             with core.quiet():
                 if obs == "re":
-                    v = complex(float(p.gen_response_re(np.array([a]))[0]), float("nan"))
+                    v = complex(float(p.gen_response_re(smp(a))[0]), float("nan"))
                 elif obs == "im":
-                    v = complex(float("nan"), float(p.gen_response_im(np.array([a]))[0]))
+                    v = complex(float("nan"), float(p.gen_response_im(smp(a))[0]))
                 else:
-                    v = complex(p.gen_unitary(np.array([a]))[0][0, 0])
+                    v = complex(p.gen_unitary(smp(a))[0][0, 0])
             mo = d.ask("resp Wx z 70 %s %s" % (rs(F(a)), rl(full)))
             val, err = mo.split()
             mr, mi = core.pcx(val)
@@ -248,8 +270,70 @@ def jacobian_sweep(ctx, S, rng, tier):
                     break
 
 
+def jacimpl_case(ctx, S, rng, kmax, k_fixed=None):
+    """the ALGORITHM the code runs (C12d): `gen_poly_jacobian_components(a)` against the model `jacImplPt` of its 3x3
+    recurrences at an exactly rational point (cos t, sin t) of the circle (Cayley parameter u), and `gen_jacobian()` against
+    the model `jacAssemble` of its mirror extension + DFT + slicing, fed with the very rows the real call sampled.
+    `jacImplPt` is proved to return Im<0|U|0> and its true partial derivatives for every n, both parities, every t
+    (C12d.jacImplPt_signal), `jacAssemble` on those rows to return the Chebyshev coefficients and their derivatives
+    (C12d.jacAssemble_sampleMat)."""
+    d = ctx.driver()
+    parity = int(rng.choice([0, 1]))
+    k = k_fixed or int(rng.integers(1, kmax + 1))
+    red = [float(x) for x in rng.uniform(-0.8, 0.8, size=k)] if rng.random() < 0.5 else gens.phases(rng, k)[0]
+    red = [float(x) for x in red]
+    u = Fraction(int(rng.integers(50, 3001)), 1000)                   # t = 2 atan u in (0.1, 2.5)
+    ct, st = (1 - u * u) / (1 + u * u), 2 * u / (1 + u * u)
+    rows = []
+    with core.quiet():
+        p = S.SymmetricQSPProtocol(reduced_phases=np.array(red), parity=parity)
+        y = np.asarray(p.gen_poly_jacobian_components(float(ct)), dtype=float).ravel()
+        orig = p.gen_poly_jacobian_components
+        p.gen_poly_jacobian_components = lambda a_: (rows.append(np.asarray(orig(a_), dtype=float).ravel()), rows[-1])[1]
+        try:
+            f, df = p.gen_jacobian()
+        finally:
+            del p.gen_poly_jacobian_components
+    pairs2 = ",".join("%s;%s" % (rs(F(float(np.cos(2 * x)))), rs(F(float(np.sin(2 * x))))) for x in red)
+    ctx.count("jacobian-algorithm:parity=%d" % parity)
+    ctx.case(["jacimpl", parity, red, str(u)], True, {"kind": "jacobian algorithm (recurrences, assembly)", "parity": parity, "k": k, "u": str(u)})
+    replay = {"kind": "jacobian-algorithm", "parity": parity, "reduced": red, "cayley_u": str(u)}
+    mo = d.ask("sym.jacimpl %d %s %s %s" % (parity, pairs2, rs(ct), rs(st)))
+    m = pl(mo)
+    tol = Fraction(1, 10 ** 10) * (k + 1)
+    if len(m) != k + 1 or len(y) != k + 1:
+        ctx.violation("c12:jacobian-components-shape", "gen_poly_jacobian_components returns %d numbers for %d reduced phases (model %d)" % (len(y), k, len(m)), replay)
+        return
+    worst = max(abs(F(float(a_)) - b_) for a_, b_ in zip(y, m))
+    ctx.extra["worst_components_diff"] = max(ctx.extra.get("worst_components_diff", 0.0), core.fl(worst))
+    if worst > tol:
+        ctx.violation("c12:jacobian-components", "gen_poly_jacobian_components(a) differs from the proven model of its recurrences (value of Im<0|U|0> and "
+                      "its partial derivatives at a = cos t) by %.3e" % core.fl(worst), dict(replay, python=[float(v) for v in y], model=[core.fl(v) for v in m]))
+        return
+    f = np.asarray(f); df = np.asarray(df)
+    if len(rows) != k + 1 or any(len(r) != k + 1 for r in rows) or f.shape != (k,) or df.shape != (k, k):
+        ctx.violation("c12:jacobian-sampling", "gen_jacobian samples %d rows (expected d+1 = %d) or returns shapes %s %s" % (len(rows), k + 1, f.shape, df.shape), replay)
+        return
+    cos_tab = [float(np.cos(2 * np.pi * j / (4 * k))) for j in range(4 * k)]
+    out = d.ask("sym.jacasm %d %d %s %s" % (parity, k, rl(F(c) for c in cos_tab), ";".join(rl(F(float(v)) for v in r) for r in rows))).split(" ")
+    mf, mdf = pl(out[0]), [pl(r) for r in out[1].split(";")]
+    worst2 = max([abs(F(float(a_)) - b_) for a_, b_ in zip(f, mf)] + [abs(F(float(df[i, j])) - mdf[i][j]) for i in range(k) for j in range(k)])
+    ctx.extra["worst_assembly_diff"] = max(ctx.extra.get("worst_assembly_diff", 0.0), core.fl(worst2))
+    if worst2 > Fraction(1, 10 ** 11) * (k + 1):
+        ctx.violation("c12:jacobian-assembly", "gen_jacobian() differs from the proven model of its assembly (mirror extension, DFT, scaling, slicing) applied to the "
+                      "rows it sampled, by %.3e" % core.fl(worst2), replay)
+        return
+    # the sampled points themselves: a_n = cos(n pi / (2d)), n = 0..d  (first row at a = 1)
+    # (recorded through the values: row n must be the components at that point; checked for n = 0 and n = d through the model)
+    for n_, (cn, sn) in ((0, (Fraction(1), Fraction(0))), (k, (Fraction(0), Fraction(1)))):
+        mrow = pl(d.ask("sym.jacimpl %d %s %s %s" % (parity, pairs2, rs(cn), rs(sn))))
+        if max(abs(F(float(a_)) - b_) for a_, b_ in zip(rows[n_], mrow)) > tol:
+            ctx.violation("c12:jacobian-nodes", "row %d sampled by gen_jacobian is not the component vector at theta = %d*pi/(2d)" % (n_, n_), replay)
+            return
+
+
 def run(tier, seed):
-    ctx = core.Ctx(PROP, tier, seed, "proof", ["C12", "C12b", "C12c", "C10", "C10b"])
+    ctx = core.Ctx(PROP, tier, seed, "proof", ["C12", "C12b", "C12c", "C12d", "C10", "C10b"])
     ctx.axioms = core.audit(ctx.modules)
     import pyqsp.sym_qsp_opt as S
     q = tier == "quick"
@@ -262,6 +346,10 @@ def run(tier, seed):
     for _ in range(40 if q else 300):
         jacobian_case(ctx, S, ctx.rng, 12 if q else 30)
     jacobian_sweep(ctx, S, ctx.rng, tier)
+    for _ in range(60 if q else 600):
+        jacimpl_case(ctx, S, ctx.rng, 14 if q else 40)
+    for k_ in range(1, 41 if q else 61):                       # every size once more: FFT lengths 4k are size-specific
+        jacimpl_case(ctx, S, ctx.rng, k_, k_fixed=k_)
     ctx.assumptions = ["Jacobian: the product-rule specification is computed exactly by the model; that it is the true derivative is "
                        "proved (C12b) for the functional at the exact pairs, the model evaluates it at 50/70-bit enclosure centres; numpy.fft inside gen_jacobian is an oracle whose result is compared"]
     return ctx.finish(
